@@ -128,6 +128,16 @@ def _work(idx):
             with B.silence():
                 sol = s.solve()
             must = [v for v in V.values() if not v.get("unspec")]
+            if not sol and must:
+                # False may only mean that z3 ran into the library's default time limit on a loaded machine
+                # (search time varies a lot between runs on some buffer problems): ask again, with a
+                # larger limit, before calling it "no solution"
+                skw = dict(opts.get("solver_kw", {}))
+                skw["max_time"] = 300
+                b, s = A.initialized_solver(p, build_kw=opts.get("build_kw"), **skw)
+                with B.silence():
+                    sol = s.solve()
+                out["default_retried"] = True
             out["default"] = {"solved": bool(sol), "V": len(V), "V_must": len(must)}
             if sol and len(p["objs"]) == 1 and len(must) == len(V) and V:
                 # the optimum reached by the default (incremental) optimiser against the best value over V(P)
